@@ -617,7 +617,15 @@ def install(world):
         'functools.reduce', lazy_uf('functools.reduce'), True)
     reg('filter', lazy_uf('py.filter'), True)
     reg('reversed', lazy_uf('py.reversed'), True)
-    reg('sorted', lazy_uf('py.sorted'), True)
+    _sorted_uf = lazy_uf('py.sorted')
+
+    def b_sorted(it, node, x, **kw):
+        if isinstance(x, (list, tuple)) and len(x) <= 5 and not it.spec \
+                and set(kw) <= {'key', 'reverse'}:
+            return _stable_sort(list(x), kw.get('key'),
+                                kw.get('reverse', False), it, node)
+        return _sorted_uf(it, node, x, **kw)
+    reg('sorted', b_sorted, True)
 
     def it_chain(it, node, *xs):
         from .world import IterSpec
@@ -944,6 +952,29 @@ def _rfind(window, sub, a, lo, n):
 
 # ------------------------------------------------------- sequences ----
 
+def _stable_sort(items, key, reverse, it, node):
+    import ast as _ast
+    if S.is_sym(reverse):
+        raise Unsupported('sort with symbolic reverse flag')
+    keys = [it.call(key, [x], {}, node) if key is not None else x
+            for x in items]
+    out = []        # (key, item), kept sorted
+    for k, x in zip(keys, items):
+        pos = len(out)
+        # stable: x goes after every earlier element that does not have to
+        # come after it (reverse keeps equal elements in original order too)
+        while pos > 0:
+            pk = out[pos - 1][0]
+            before = it.compare1(_ast.Gt() if reverse else _ast.Lt(),
+                                 k, pk, node)
+            t = it.truth(before)
+            if not it.branch(t if isinstance(t, bool) else t):
+                break
+            pos -= 1
+        out.insert(pos, (k, x))
+    return [x for _, x in out]
+
+
 def seq_method(world, o, name, args, kw, it, node):
     if isinstance(o, list):
         if name == 'append':
@@ -965,6 +996,12 @@ def seq_method(world, o, name, args, kw, it, node):
             return None
         if name == 'copy':
             return list(o)
+        if name == 'sort' and len(o) <= 5 and not args:
+            # list.sort(key=, reverse=): stable insertion sort, forking on
+            # each (possibly symbolic) comparison of the keys
+            o[:] = _stable_sort(o, kw.get('key'), kw.get('reverse', False),
+                                it, node)
+            return None
         if name == 'index' or name == 'count':
             raise Unsupported('list.%s' % name)
     if isinstance(o, tuple) and name in ('index', 'count'):
